@@ -633,13 +633,25 @@ func (c *Ctx) rulesR3subs() {
 	n := 0
 	for _, k := range []string{pm + ":Machine.processSubscriptions", prpc + ":NetworkMachine.processSubscriptions"} {
 		f := c.fnOpt(k)
+		var common []Guard
+		if f == nil && k == pm+":Machine.processSubscriptions" {
+			// inlined into processQueue: unconditional relative to the guards the
+			// whole block sits under (those of every collector call)
+			f, _ = c.procSubsFn()
+			if f != nil {
+				common = c.collectorCommonGuards(f)
+			}
+		}
 		if f == nil {
 			continue
 		}
 		for _, col := range []string{"ProcessWhen", "ProcessWhenTime", "ProcessWhenQueue", "ProcessWhenQuery", "ProcessStateCtx"} {
 			for i, s := range c.innerSites(f, pm+":Subscriptions."+col) {
+				if common != nil && col == "ProcessStateCtx" {
+					continue // lives in emitEvents on the machine side
+				}
 				n++
-				gs := c.guardsHosted(s, f)
+				gs := minusGuards(c.guardsHosted(s, f), common)
 				c.check(len(gs) == 0, "C06.uncond", fmt.Sprintf("%s calls %s%s unconditionally", k, col, nth(i)), s.Pos(), fmt.Sprintf("the collector only runs under %v", guardStrings(gs)))
 			}
 		}
@@ -1421,7 +1433,11 @@ func (c *Ctx) rulesR3misc(only string) {
 		fCP := c.field(pm, "Machine", "ctxParent")
 		if hl != nil && fCP != nil {
 			n := 0
-			for _, b := range hl.Blocks {
+			var gblocks []*ssa.BasicBlock
+			for _, hf := range c.hostedFns(hl) {
+				gblocks = append(gblocks, hf.Blocks...)
+			}
+			for _, b := range gblocks {
 				for _, ins := range b.Instrs {
 					call, ok := ins.(*ssa.Call)
 					if !ok {
@@ -1446,6 +1462,12 @@ func (c *Ctx) rulesR3misc(only string) {
 		nc := 0
 		for _, k := range []string{pm + ":Machine.processSubscriptions", prpc + ":NetworkMachine.processSubscriptions"} {
 			f := c.fnOpt(k)
+			var common []Guard
+			if f == nil && k == pm+":Machine.processSubscriptions" {
+				if f, _ = c.procSubsFn(); f != nil {
+					common = c.collectorCommonGuards(f)
+				}
+			}
 			if f == nil {
 				continue
 			}
@@ -1468,9 +1490,24 @@ func (c *Ctx) rulesR3misc(only string) {
 					if !isClose {
 						continue
 					}
+					if common != nil {
+						// inlined into processQueue: only the closes of a list (inside a
+						// range loop), not the single CheckDone channel of a check mutation
+						inRange := false
+						if h := loopHeaderOf(b); h != nil {
+							for _, hi := range h.Instrs {
+								if p, ok := hi.(*ssa.Phi); ok && p.Comment == "rangeindex" {
+									inRange = true
+								}
+							}
+						}
+						if !inRange {
+							continue
+						}
+					}
 					nc++
 					bad := ""
-					for _, g := range c.guardsHosted(ins, root) {
+					for _, g := range minusGuards(c.guardsHosted(ins, root), common) {
 						cond, _ := stripNot(g.Cond)
 						if bo, ok := cond.(*ssa.BinOp); ok && (bo.Op == token.LSS || bo.Op == token.GTR) {
 							continue // range bound
@@ -1478,7 +1515,16 @@ func (c *Ctx) rulesR3misc(only string) {
 						bad = render(g.Cond)
 					}
 					// an early return inside the closing loop
-					if h := loopHeaderOf(b); h != nil {
+					isRangeHdr := func(h *ssa.BasicBlock) bool {
+						for _, hi := range h.Instrs {
+							if p, ok := hi.(*ssa.Phi); ok && p.Comment == "rangeindex" {
+								return true
+							}
+						}
+						return false
+					}
+					// (inlined into processQueue: the enclosing queue loop is not the closing loop)
+					if h := loopHeaderOf(b); h != nil && (common == nil || isRangeHdr(h)) {
 						for _, x := range f.Blocks {
 							if h.Dominates(x) && blockReach(x)[h] && len(x.Instrs) > 0 {
 								if ifi, ok := x.Instrs[len(x.Instrs)-1].(*ssa.If); ok && x != h {
@@ -2201,4 +2247,59 @@ func (c *Ctx) rulesR3whentime() {
 	if n < 1 {
 		c.undecided("C06.ticked: ProcessWhenTime has no walk over a clock map")
 	}
+}
+
+// procSubsFn: Machine.processSubscriptions, or (its body inlined) processQueue.
+func (c *Ctx) procSubsFn() (*ssa.Function, bool) {
+	if f := c.fnOpt(pm + ":Machine.processSubscriptions"); f != nil {
+		return f, false
+	}
+	pq := c.fnOpt(pm + ":Machine.processQueue")
+	if pq == nil {
+		c.undecided("anchor function not found: " + pm + ":Machine.processSubscriptions (nor processQueue)")
+		return nil, false
+	}
+	if len(c.sitesIn(pq, pm+":Subscriptions.ProcessWhen")) == 0 {
+		c.undecided("anchor function not found: " + pm + ":Machine.processSubscriptions (and processQueue does not call the collectors)")
+		return nil, false
+	}
+	return pq, true
+}
+
+// collectorCommonGuards: the branch outcomes shared by every call of the four
+// subscription collectors in f.
+func (c *Ctx) collectorCommonGuards(f *ssa.Function) []Guard {
+	var sites []callSite
+	for _, col := range []string{"ProcessWhen", "ProcessWhenTime", "ProcessWhenQuery"} {
+		for _, s := range c.sitesIn(f, pm+":Subscriptions."+col) {
+			sites = append(sites, callSite{Fn: f, Instr: s})
+		}
+	}
+	if len(sites) == 0 {
+		return nil
+	}
+	gs := commonGuards(sites)
+	if gs == nil {
+		gs = []Guard{}
+	}
+	return gs
+}
+
+func minusGuards(gs, drop []Guard) []Guard {
+	if len(drop) == 0 {
+		return gs
+	}
+	var out []Guard
+	for _, g := range gs {
+		keep := true
+		for _, d := range drop {
+			if g.Cond == d.Cond && g.Pol == d.Pol {
+				keep = false
+			}
+		}
+		if keep {
+			out = append(out, g)
+		}
+	}
+	return out
 }
